@@ -19,6 +19,12 @@ from common.vlib import g_bool, g_list, g_opt, g_pair, g_str, g_z
 import c20_download
 import c20_parse
 
+# The virtual clocks count ticks of 1/1024 s, so that every float the code under test
+# computes from time.time() (seconds), the millisecond timeout and their differences is
+# exact.  A case's "timeout" is the configured stream timeout expressed in ticks; the
+# implementation is called with the same duration in milliseconds.
+TICKS = 1024
+
 AREA = "Untrusted"
 FX = "true"
 
@@ -43,7 +49,7 @@ class FakeClock:
         self.base = self.script[min(self.calls, len(self.script) - 1)]
         self.calls += 1
         self.readings.append(self.base + self.spent)
-        return float(self.base + self.spent)
+        return (self.base + self.spent) / TICKS
 
     def now(self):
         """True time as the harness knows it (whether or not the code looked)."""
@@ -77,7 +83,9 @@ class World:
         if node is None or node["scan"][0] == "error":
             raise exceptions.ScannerError("scripted scanner failure")
         _, playable, mime = node["scan"]
-        return ScanResult(uri, playable, mime)
+        res = ScanResult(uri, playable, mime)
+        res.tags, res.duration = node.get("tags", {}), node.get("duration")
+        return res
 
     # requests.Session API
     def get(self, uri, stream=False, timeout=None):  # noqa: ARG002
@@ -146,7 +154,7 @@ def gen_body(rng, refs):
     return c20_parse.FORMATS[fmt](rng, refs)
 
 
-def gen_graph(rng, shape):
+def gen_graph(rng, shape, timeout):
     n = rng.randint(1, 6)
     nodes = {}
     for i in range(n):
@@ -165,21 +173,22 @@ def gen_graph(rng, shape):
                 for _ in range(rng.randint(0, 3)):
                     refs.append(ref_to(rng, i, rng.randrange(n)) if rng.random() < 0.8 else rng.choice(BAD_REFS))
                 ok = rng.random() < 0.9
-                get = ("response", ok, gen_durs(rng), gen_body(rng, refs))
+                get = ("response", ok, gen_durs(rng, timeout), gen_body(rng, refs))
             else:
                 get = (k,)
         nodes[node_uri(i)] = {"scan": scan, "get": get}
     return nodes
 
 
-def gen_durs(rng):
-    """Chunk arrival times of a body: a list, or ("endless", d) for a body that never ends."""
+def gen_durs(rng, timeout):
+    """Chunk arrival times (ticks) of a body: a list, or ("endless", d) for a body that
+    never ends (d >= timeout / 50, so that the code under test stops within ~50 chunks)."""
     k = rng.weighted([("instant", 6), ("timed", 3), ("endless", 0.8)])
     if k == "instant":
         return [0] * rng.randint(1, 3)
     if k == "endless":
-        return ("endless", rng.choice([1, 2, 7]))
-    return [rng.choice([0, 0, 0, 1, 2, 7, 100]) for _ in range(rng.randint(1, 4))]
+        return ("endless", max(1, timeout // rng.choice([3, 10, 50])))
+    return [rng.choice([0, 0, 0, 1, 2, timeout // 7 + 1, timeout // 2 + 1]) for _ in range(rng.randint(1, 4))]
 
 
 def _parse(body):
@@ -194,9 +203,8 @@ def _parse(body):
     return r
 
 
-def gen_clock(rng, shape, nreads):
-    t0 = rng.choice([0, 1000, 1700000000])
-    timeout = rng.choice([1, 50, 5000, 5000, 60000])
+def gen_clock(rng, shape, nreads, timeout):
+    t0 = rng.choice([0, 1000, 1700000000 * TICKS])
     deadline = t0 + timeout
     if shape == "cycle":
         return [t0] * nreads, [0], timeout
@@ -235,8 +243,8 @@ def g_get(g, uris):
         return "GetInvalidSchema"
     if g[0] == "error":
         return "GetRequestException"
-    # an endless body is, for the model, a long enough run of chunks (64 * d * 1000 exceeds every generated timeout)
-    durs = [g[2][1]] * 64 if isinstance(g[2], tuple) else g[2]
+    # an endless body is, for the model, a long enough run of chunks (see gen_durs: 64 * d exceeds every generated timeout)
+    durs = [g[2][1]] * 70 if isinstance(g[2], tuple) else g[2]
     return f"(GetResponse {g_bool(g[1])} {g_list([g_z(d) for d in durs])} {g_list([g_str(u) for u in uris])})"
 
 
@@ -287,13 +295,14 @@ def case_term(c):
 
 def run_impl(actor, http, case):
     clock = FakeClock(case["script"], case.get("durations", [0]))
-    hclock = c20_download.VirtualClock(0)
+    hclock = c20_download.VirtualClock(0, ticks_per_second=TICKS)
     world = World(case["nodes"], clock, hclock)
     old_a, old_h = actor.time, http.time
     actor.time, http.time = clock, hclock
     try:
         try:
-            uri, res = actor._unwrap_stream(case["start"], timeout=case["timeout"], scanner=world, requests_session=world)  # noqa: SLF001
+            timeout_ms = case["timeout"] * 1000 / TICKS  # exact: 1000/1024 = 125/128
+            uri, res = actor._unwrap_stream(case["start"], timeout=timeout_ms, scanner=world, requests_session=world)  # noqa: SLF001
             ok_shape = (uri is None and res is None) or isinstance(uri, str)
             with_scan = res is not None
             if res is not None and not (isinstance(res, ScanResult) and res.uri == uri):
@@ -306,12 +315,16 @@ def run_impl(actor, http, case):
     finally:
         actor.time, http.time = old_a, old_h
     log = []
+    inexact = False
     for kind, uri, timeout, last in world.trace:
-        t = timeout if kind == "scan" else timeout * 1000
+        # scanner timeouts are milliseconds, session timeouts seconds: both back to ticks
+        t = timeout * 128 / 125 if kind == "scan" else timeout * TICKS
+        inexact = inexact or abs(t - round(t)) > 1e-6
         log.append((kind, uri, int(round(t)), last))
+    case["inexact"] = inexact
     # the clock oracle's outcome as the implementation observed it (what the model is given)
     case["obs"], case["log"], case["clock"] = obs, log, clock.readings or [case["script"][0]]
-    case["downloads"] = [(u, int(round(t * 1000)), r.times, r.delivered) for u, t, r in world.responses]
+    case["downloads"] = [(u, int(round(t * TICKS)), r.times, r.delivered) for u, t, r in world.responses]
     return case
 
 
@@ -337,14 +350,15 @@ def monitors(chk, case):
             good = False
     deadline = case["clock"][0] + case["timeout"]
     for kind, u, t, last in log:  # last = true time when the fetch was issued
-        if t < 0 or last is None or last > deadline or t != deadline - last:
+        if t < 0 or last is None or last > deadline or t != deadline - last or case.get("inexact"):
             chk.monitor_failure("deadline_respected", {"call": "_unwrap_stream", "kind": kind},
-                                "a fetch was issued after the deadline or with a timeout other than the time left at that moment",
+                                "a fetch was issued after the configured timeout had elapsed, or was handed something else than the time left "
+                                "(scanner timeouts are milliseconds, time.time() and session timeouts are seconds)",
                                 {**meta, "log": log, "fetch": [kind, u, t, last], "deadline": deadline})
             good = False
             break
     for u, dt, times, delivered in case["downloads"]:
-        if not c20_download.deadline_respected(times, dt):
+        if not c20_download.deadline_respected(times, dt, unit=1):
             chk.monitor_failure("download_deadline_respected", {"call": "_unwrap_stream"},
                                 "http.download kept pulling chunks after the time left for the unwrapping had passed",
                                 {**meta, "uri": u, "time_left": dt, "chunk_times": times[:12], "chunks_pulled": delivered})
@@ -358,10 +372,11 @@ def monitors(chk, case):
 
 def gen_case(rng):
     shape = rng.weighted([("random", 6), ("cycle", 2)])
-    nodes = gen_graph(rng, shape)
+    timeout = rng.choice([1, 50, 1024, 5120, 5120, 61440])  # ticks: ~1 ms, ~49 ms, 1 s, 5 s, 60 s
+    nodes = gen_graph(rng, shape, timeout)
     uris = list(nodes)
     start = rng.choice(uris) if rng.random() < 0.95 else "http://h.example/unknown"
-    script, durations, timeout = gen_clock(rng, shape, 3 * len(nodes) + 6)
+    script, durations, timeout = gen_clock(rng, shape, 3 * len(nodes) + 6, timeout)
     return {"shape": shape, "nodes": nodes, "start": start, "script": script, "durations": durations, "timeout": timeout}
 
 
@@ -407,7 +422,7 @@ CORPUS = [
     {"shape": "random", "nodes": {node_uri(0): {"scan": ("error",), "get": ("response", True, [0], b"#EXTM3U\nhttp://[::1\n")}},
      "start": node_uri(0), "script": [0, 1, 2, 3, 4, 5, 6], "timeout": 100},
     # a stream that the scanner does not recognise and that never ends: the download must give up
-    {"shape": "random", "nodes": {node_uri(0): {"scan": ("error",), "get": ("response", True, ("endless", 1), b"")}},
+    {"shape": "random", "nodes": {node_uri(0): {"scan": ("error",), "get": ("response", True, ("endless", 100), b"")}},
      "start": node_uri(0), "script": [0, 1, 2, 3, 4], "timeout": 3000},
     # slow download, failed status, playable application/ogg, interesting mime but not playable
     {"shape": "random", "nodes": {node_uri(0): {"scan": ("result", False, "application/x-mpegurl"), "get": ("response", True, [0, 100], b"a:b\n")}},
